@@ -124,10 +124,10 @@ CHECKS["C15"] = dict(
 def c20_parts(tier, seed):
     fl = "seq"
     return [
+        P("mixed-preferences", "c20_csp", fl, ["--part", "mixed"], require=["satisfiable", "unsatisfiable"], deadline_frac=0.3),
         P("n1", "c20_csp", fl, ["--part", "n1"], require=["satisfiable", "unsatisfiable"]),
         P("n2", "c20_csp", fl, ["--part", "n2"], require=["satisfiable", "unsatisfiable"], deadline_frac=0.9),
         P("n3", "c20_csp", fl, ["--part", "n3"], require=["satisfiable", "unsatisfiable"], deadline_frac=0.9),
-        P("mixed-preferences", "c20_csp", fl, ["--part", "mixed"], require=["satisfiable", "unsatisfiable"], deadline_frac=0.9),
     ]
 
 CHECKS["C20"] = dict(
@@ -306,11 +306,11 @@ def c13_parts(tier, seed):
             P("cancelled-build-4men", T, "fast", ["--part", "cancel", "--names", "KQvKR", "--roots", 2, "--kstride", 128], workers=16, require=["cancelled_first_searches", "nontrivial"], deadline_frac=0.9),
         ]
     return [
+        P("cancelled-build-3men", T, "fast", ["--part", "cancel", "--names", "KQvK,KRvK,KvKQ,KvKR,KBvK", "--roots", 3, "--kstride", 1], workers=8, require=["cancelled_first_searches", "nontrivial"], deadline_frac=0.1),
+        P("cancelled-build-4men", T, "fast", ["--part", "cancel", "--names", "KQvKR,KBNvK,KRvKB", "--roots", 3, "--kstride", 16], workers=16, require=["cancelled_first_searches", "nontrivial"], deadline_frac=0.25),
         P("3men", T, "fast", ["--part", "3men", "--clocks", "0,99", "--mrange", 2, "--polls", 6], require=["nontrivial", "not_completable_roots"], deadline_frac=0.95),
         P("4men", T, "fast", ["--part", "4men", "--names", "KBNvK,KQvKR,KRvKN,KBBvK,KvKQR,KRvKB", "--clocks", "0,99", "--mrange", 2, "--polls", 6, "--stride", 61], require=["nontrivial"], deadline_frac=0.95),
         P("3men-asan", T, "seq", ["--part", "3men", "--names", "KRvK", "--clocks", "0", "--mrange", 1, "--polls", 3], require=["nontrivial"], deadline_frac=0.95),
-        P("cancelled-build-3men", T, "fast", ["--part", "cancel", "--names", "KQvK,KRvK,KvKQ,KvKR,KBvK", "--roots", 3, "--kstride", 1], workers=8, require=["cancelled_first_searches", "nontrivial"], deadline_frac=0.3),
-        P("cancelled-build-4men", T, "fast", ["--part", "cancel", "--names", "KQvKR,KBNvK,KRvKB", "--roots", 3, "--kstride", 16], workers=16, require=["cancelled_first_searches", "nontrivial"], deadline_frac=0.5),
     ]
 
 CHECKS["C13"] = dict(
@@ -636,15 +636,15 @@ def c10_parts(tier, seed):
             P("acktree-3", "c10_acktree", "sched", ["--nodes", 3, "--searches", 1], workers=6, require=["schedules", "trees"], deadline_frac=0.9),
         ]
     return [
-        P("bound2-threads12", T, "sched", ["--part", "explore", "--threads", "1,2", "--bound", 2], require=["schedules", "determinism_checks"], deadline_frac=0.6),
+        P("acktree-3x2", "c10_acktree", "sched", ["--nodes", 3, "--searches", 2], workers=6, require=["schedules", "trees"], deadline_frac=0.17),
+        P("acktree-4", "c10_acktree", "sched", ["--nodes", 4, "--searches", 1], workers=16, require=["schedules", "trees"], deadline_frac=0.15),
+        P("bound1-threads6", T, "sched", ["--part", "explore", "--threads", "6", "--bound", 1, "--scripts", "S19"], require=["nontrivial", "end_state_probes"], deadline_frac=0.1),
+        P("bound2-threads12", T, "sched", ["--part", "explore", "--threads", "1,2", "--bound", 2], require=["schedules", "determinism_checks"], deadline_frac=0.45),
         P("bound1-threads3", T, "sched", ["--part", "explore", "--threads", "3", "--bound", 1], require=["schedules"], deadline_frac=0.2),
         P("bound3-threads1", T, "sched", ["--part", "explore", "--threads", "1", "--bound", 3, "--scripts", "S1;S2;S13"], require=["schedules"], deadline_frac=0.2),
         P("bound1-asan", T, "sched-asan", ["--part", "explore", "--threads", "2", "--bound", 1, "--scripts", "S1;S2;S3;S5;S7;S9"], require=["schedules"], deadline_frac=0.2),
         P("deep-default", T, "sched", ["--part", "explore", "--threads", "2,3,4", "--bound", 0, "--scripts", "D1;D2;D3;D4;D5;D6;D7;D8;S16;S17"], require=["schedules"], deadline_frac=0.2),
         P("deep-bound1", T, "sched", ["--part", "explore", "--threads", "2", "--bound", 1, "--scripts", "D5;D3;D8;S17"], require=["nontrivial"], deadline_frac=0.4),
-        P("bound1-threads6", T, "sched", ["--part", "explore", "--threads", "6", "--bound", 1, "--scripts", "S19"], require=["nontrivial", "end_state_probes"], deadline_frac=0.3),
-        P("acktree-3x2", "c10_acktree", "sched", ["--nodes", 3, "--searches", 2], workers=6, require=["schedules", "trees"], deadline_frac=0.5),
-        P("acktree-4", "c10_acktree", "sched", ["--nodes", 4, "--searches", 1], workers=16, require=["schedules", "trees"], deadline_frac=0.6),
     ]
 
 C10_COMMON = dict(
